@@ -309,32 +309,6 @@ Proof.
   destruct p; [|destruct (400 <=? ret)%Z]; simpl; rewrite ?no_panic_app, ?H; reflexivity.
 Qed.
 
-(* the shape of log_serve's result on a script that returns *)
-Lemma log_serve_found c cs tbl ek rules path ops ret u r :
-  find (fun r => path_matches cs path (ru_scope r)) rules = Some r ->
-  no_panic ops = true ->
-  let s := fst (run c (u, rec0) (ops ++ fallback tbl ek ret)) in
-  log_serve c cs tbl ek rules path ops ret u =
-  (fst s, if (400 <=? ret)%Z then 0%Z else ret, false,
-   map (fun e => (n_id e, r_status (snd s), logged_size c (snd s)))
-       (filter (fun e => should_log cs (n_except e) path) (matching_entries cs rules path))).
-Proof.
-  intros Hf Hn. cbv zeta. unfold log_serve. rewrite Hf.
-  rewrite (run_app c ops (u, rec0) (fallback tbl ek ret) Hn).
-  pose proof (run_no_panic c ops (u, rec0) Hn) as Hp.
-  destruct (run c (u, rec0) ops) as [[u1 r1] p]. simpl in Hp. subst p. cbn [fst].
-  unfold fallback. destruct (400 <=? ret)%Z.
-  - destruct (run c (u1, r1) (err_ops tbl ek ret)) as [[u2 r2] p2]. reflexivity.
-  - reflexivity.
-Qed.
-
-Lemma log_serve_not_found c cs tbl ek rules path ops ret u :
-  find (fun r => path_matches cs path (ru_scope r)) rules = None ->
-  snd (log_serve c cs tbl ek rules path ops ret u) = [].
-Proof.
-  intro Hf. unfold log_serve. rewrite Hf. destruct (run c (u, rec0) ops) as [[u' r'] p]. reflexivity.
-Qed.
-
 (* ---- exactly one line per entry of every matching rule ------------------------------------- *)
 Lemma count_id_app i a b : count_id i (a ++ b) = (count_id i a + count_id i b)%nat.
 Proof. unfold count_id. rewrite filter_app, app_length. reflexivity. Qed.
@@ -444,40 +418,49 @@ Proof.
   destruct (m x); [discriminate|]. apply IH. exact H.
 Qed.
 
-(* on a script that returns, the lines are those of [logged], all with one status and size *)
+(* whatever the handler does, the lines are those of [logged], all with one status and size; a
+   panic gets past the middleware only when the request is outside every scope *)
 Lemma log_serve_lines_shape c cs tbl ek rules path ops ret u :
-  no_panic ops = true ->
   let '(_, _, p, lines) := log_serve c cs tbl ek rules path ops ret u return Prop in
-  p = false /\ exists st sz, lines = map (fun e => (n_id e, st, sz)) (logged cs path rules).
+  (exists st sz, lines = map (fun e => (n_id e, st, sz)) (logged cs path rules)) /\
+  (p = true -> find (fun r => path_matches cs path (ru_scope r)) rules = None).
 Proof.
-  intro Hn.
+  unfold log_serve.
   destruct (find (fun r => path_matches cs path (ru_scope r)) rules) as [r|] eqn:Hf.
-  - rewrite (log_serve_found c cs tbl ek rules path ops ret u r Hf Hn).
-    split; [reflexivity|]. eexists. eexists. reflexivity.
-  - unfold log_serve. rewrite Hf. pose proof (run_no_panic c ops (u, rec0) Hn) as Hp.
-    destruct (run c (u, rec0) ops) as [[u' r'] p]. simpl in Hp. subst p.
-    split; [reflexivity|]. exists 0%Z, 0. unfold logged, matching_entries.
+  - destruct (run c (u, rec0) ops) as [[u1 r1] p].
+    destruct (400 <=? (if p then 500 else ret))%Z.
+    + destruct (run c (u1, r1) (err_ops tbl ek (if p then 500%Z else ret))) as [[u2 r2] p2].
+      split; [eexists; eexists; reflexivity|discriminate].
+    + split; [eexists; eexists; reflexivity|discriminate].
+  - destruct (run c (u, rec0) ops) as [[u' r'] p].
+    split; [|reflexivity]. exists 0%Z, 0. unfold logged, matching_entries.
     rewrite (find_none_filter _ rules Hf). reflexivity.
 Qed.
 
+Lemma find_none_all {A} (m : A -> bool) : forall l, find m l = None -> forall x, In x l -> m x = false.
+Proof.
+  induction l as [|y l IH]; intros H x Hx; [contradiction|]. simpl in H.
+  destruct (m y) eqn:E; [discriminate|]. destruct Hx as [<-|Hx]; [exact E|apply IH; assumption].
+Qed.
+
 Lemma one_line_per_entry c cs tbl ek rules path ops ret u :
-  no_panic ops = true ->
   NoDup (map n_id (flat_map ru_entries rules)) ->
   let '(_, _, p, lines) := log_serve c cs tbl ek rules path ops ret u in
-  p = false /\
   (forall r e, In r rules -> In e (ru_entries r) ->
      count_id (n_id e) lines =
      if path_matches cs path (ru_scope r) && should_log cs (n_except e) path then 1%nat else 0%nat) /\
   (forall i, ~ In i (map n_id (flat_map ru_entries rules)) -> count_id i lines = 0%nat) /\
-  (exists st sz, forall l, In l lines -> snd (fst l) = st /\ snd l = sz).
+  (exists st sz, forall l, In l lines -> snd (fst l) = st /\ snd l = sz) /\
+  (p = true -> forall r, In r rules -> path_matches cs path (ru_scope r) = false).
 Proof.
-  intros Hn Hnd. pose proof (log_serve_lines_shape c cs tbl ek rules path ops ret u Hn) as H.
+  intros Hnd. pose proof (log_serve_lines_shape c cs tbl ek rules path ops ret u) as H.
   destruct (log_serve c cs tbl ek rules path ops ret u) as [[[u' r'] p] lines].
-  destruct H as [Hp [st [sz ->]]]. split; [exact Hp|]. split; [|split].
+  destruct H as [[st [sz ->]] Hp]. split; [|split; [|split]].
   - intros r e Hr He. rewrite count_id_map. apply idcount_logged; assumption.
   - intros i Hi. rewrite count_id_map. apply idcount_none. intro H. apply Hi.
     apply logged_ids_subset in H. exact H.
   - exists st, sz. intros l Hl. apply in_map_iff in Hl as [e [<- _]]. split; reflexivity.
+  - intros E r Hr. apply (find_none_all _ rules (Hp E) r Hr).
 Qed.
 
 (* ---- logged status and size are what the client got ----------------------------------------- *)
@@ -541,9 +524,9 @@ Proof. intro H. unfold informational. apply Z.leb_le in H. destruct (ret <=? 199
 Lemma err_ops_final tbl ek ret : (400 <=? ret)%Z = true -> final_codes (err_ops tbl ek ret) = true.
 Proof. intro H. simpl. rewrite (error_code_final ret H). reflexivity. Qed.
 
-(* whatever the handler does: either no line is written, or the middleware returns a status
-   below 400 (so that the server adds nothing) and every line carries the committed status and
-   the delivered byte count *)
+(* whatever the handler does: either no line is written, or the middleware returns (it does not
+   panic) a status below 400 (so that the server adds nothing) and every line carries the
+   committed status and the delivered byte count *)
 Lemma log_serve_lines c cs tbl ek rules path ops ret :
   head_ok c = true -> final_codes ops = true ->
   let '(u', ret', p, lines) := log_serve c cs tbl ek rules path ops ret uw0 return Prop in
@@ -555,10 +538,10 @@ Proof.
   destruct (find (fun r => path_matches cs path (ru_scope r)) rules) as [r|].
   - pose proof (run_consistent c ops (uw0, rec0) Hh Hf (consistent_init c)) as Hc.
     destruct (run c (uw0, rec0) ops) as [[u1 r1] p]. cbn [fst] in Hc.
-    destruct p; [left; reflexivity|].
-    destruct (400 <=? ret)%Z eqn:E.
-    + pose proof (run_consistent c (err_ops tbl ek ret) (u1, r1) Hh (err_ops_final tbl ek ret E) Hc) as Hc2.
-      destruct (run c (u1, r1) (err_ops tbl ek ret)) as [[u2 r2] p2]. cbn [fst] in *.
+    destruct (400 <=? (if p then 500 else ret))%Z eqn:E.
+    + pose proof (run_consistent c (err_ops tbl ek (if p then 500%Z else ret)) (u1, r1) Hh
+                    (err_ops_final tbl ek _ E) Hc) as Hc2.
+      destruct (run c (u1, r1) (err_ops tbl ek (if p then 500%Z else ret))) as [[u2 r2] p2]. cbn [fst] in *.
       apply consistent_client in Hc2 as [H1 H2]. cbn [fst snd] in *.
       right. split; [reflexivity|]. split; [reflexivity|].
       intros l Hl. apply in_map_iff in Hl as [e [<- _]]. simpl. split; symmetry; assumption.
@@ -637,12 +620,11 @@ Proof.
 Qed.
 
 Lemma one_line_per_log c cs tbl ek ds path ops ret u :
-  no_panic ops = true ->
   counts_ok cs ds 0 path (snd (log_serve c cs tbl ek (parse_logs ds 0 []) path ops ret u)) = true.
 Proof.
-  intro Hn. pose proof (log_serve_lines_shape c cs tbl ek (parse_logs ds 0 []) path ops ret u Hn) as H.
+  pose proof (log_serve_lines_shape c cs tbl ek (parse_logs ds 0 []) path ops ret u) as H.
   destruct (log_serve c cs tbl ek (parse_logs ds 0 []) path ops ret u) as [[[u' r'] p] lines].
-  destruct H as [_ [st [sz ->]]]. cbn [snd].
+  destruct H as [[st [sz ->]] _]. cbn [snd].
   apply counts_ok_of_counts. intros j _. rewrite count_id_map, logged_parse_logs. reflexivity.
 Qed.
 
@@ -725,14 +707,9 @@ Proof.
   reflexivity.
 Qed.
 
-Lemma site_one_line_per_log_partial c cs tbl (haserr hdrw : bool) ds path ops ret :
-  (haserr = true \/ no_panic ops = true) ->
+Lemma site_one_line_per_log c cs tbl (haserr hdrw : bool) ds path ops ret :
   counts_ok cs ds 0 path (snd (site_serve c cs tbl haserr hdrw ds path ops ret)) = true.
-Proof.
-  intros Hp. rewrite site_lines. cbv zeta.
-  apply one_line_per_log.
-  apply inner_flat_no_panic. exact Hp.
-Qed.
+Proof. rewrite site_lines. cbv zeta. apply one_line_per_log. Qed.
 
 (* ---- escaping every brace of a text and expanding gives the text back ----------------------- *)
 Fixpoint esc1 (c : N) (w : bytes) : bytes :=
